@@ -51,7 +51,7 @@ func RunProperty(prop string, c04 bool, seed int64, tier, out string) {
 			defer func() { <-sem }()
 			runs[i] = Execute(scs[i])
 			finds[i] = runs[i].Oracle()
-			if runs[i].Root != nil && !scs[i].Depth2 {
+			if runs[i].Root != nil && !scs[i].Depth2 && len(runs[i].Env.Inconclusive) == 0 {
 				terms[i] = runs[i].CaseTerm()
 			}
 		}(i)
@@ -72,11 +72,22 @@ func RunProperty(prop string, c04 bool, seed int64, tier, out string) {
 			fmt.Printf("=== %d %s\n%s\n", i, scs[i].String(), Describe(r))
 		}
 		outcome := fmt.Sprintf("settled=%v%v", r.Settled[0], r.Settled[1])
+		if len(r.Env.Inconclusive) > 0 {
+			outcome = "not-judged"
+		}
 		res.Count(class, outcome, class+"/"+outcome+"/"+shape(r), false)
 		if i < 3 {
 			res.Sample(map[string]interface{}{"scenario": scs[i].String(), "settled": r.Settled, "notes": r.Notes, "before": fmt.Sprint(r.Before), "after": fmt.Sprint(r.After)})
 		}
+		for _, x := range r.Env.Inconclusive {
+			res.Warnings = append(res.Warnings, fmt.Sprintf("scenario %d not judged: %s", i, x))
+		}
 		for _, f := range finds[i] {
+			if f.Class == "harness" {
+				// the harness could not do its part (it is not a statement about the code under test)
+				res.Warnings = append(res.Warnings, fmt.Sprintf("scenario %d: harness: %s", i, f.What))
+				continue
+			}
 			site := "client.Channel.Settle"
 			if c04 {
 				site = "watcher/local.handleRegisteredEvent+client.Channel.Settle"
@@ -103,7 +114,7 @@ func RunProperty(prop string, c04 bool, seed int64, tier, out string) {
 	sw.Flush()
 	for _, i := range deep {
 		caseIdx := -1
-		if runs[i].Root != nil {
+		if runs[i].Root != nil && len(runs[i].Env.Inconclusive) == 0 {
 			caseIdx = lw.Add(runs[i].LedgerCaseTerm())
 			res.CaseIndex = append(res.CaseIndex, classOf(runs[i])+"/ledger-calls")
 		}
